@@ -295,6 +295,7 @@ fn feed_fixed_block_size<T: Source, C: Fill>(
     let mut src = src;
     let mut frame_count = 0usize;
     let mut worker_starvation_count = 0usize;
+    let mut read_result = Ok(());
 
     'feed: loop {
         let bufid = parbuf.recv_refill_request();
@@ -303,9 +304,13 @@ fn feed_fixed_block_size<T: Source, C: Fill>(
                 .lock()
                 .expect(panic_msg::MUTEX_LOCK_FAILED);
             let mut framebuf_and_ctx = (&mut numbuf.framebuf, &mut context);
-            let read_samples = src.read_samples(block_size, &mut framebuf_and_ctx)?;
-            if read_samples == 0 {
-                break 'feed;
+            match src.read_samples(block_size, &mut framebuf_and_ctx) {
+                Ok(0) => break 'feed,
+                Ok(_) => {}
+                Err(e) => {
+                    read_result = Err(e);
+                    break 'feed;
+                }
             }
             numbuf.frame_number = Some(frame_count);
         }
@@ -314,7 +319,10 @@ fn feed_fixed_block_size<T: Source, C: Fill>(
             worker_starvation_count += 1;
         }
     }
+    // Workers must be told to stop even if reading failed; otherwise they
+    // would wait for the next buffer forever.
     parbuf.request_stop(workers);
+    read_result?;
     Ok((
         FeedStats {
             frame_count,
@@ -374,7 +382,7 @@ pub fn encode_with_fixed_block_size<T: Source>(
         src.channels(),
         block_size,
     )?);
-    let parsink: Arc<ParSink<Frame>> = Arc::new(ParSink::new());
+    let parsink: Arc<ParSink<Result<Frame, VerifyError>>> = Arc::new(ParSink::new());
 
     let join_handles: Vec<_> = (0..worker_count)
         .map(|_n| {
@@ -389,7 +397,7 @@ pub fn encode_with_fixed_block_size<T: Source>(
                         let frame_number = numbuf.frame_number.expect(panic_msg::FRAMENUM_NOT_SET);
                         (
                             frame_number,
-                            coding::encode_fixed_size_frame(
+                            coding::encode_fixed_size_frame_impl(
                                 &config,
                                 &numbuf.framebuf,
                                 frame_number,
@@ -397,15 +405,16 @@ pub fn encode_with_fixed_block_size<T: Source>(
                             ),
                         )
                     };
-                    encode_result.map_or_else(
-                        |e| {
-                            unreachable!("{}, err={:?}", panic_msg::ERROR_NOT_EXPECTED, e);
-                        },
-                        |mut frame| {
-                            parbuf.enqueue_refill(bufid);
+                    // The buffer is handed back in both cases so that the
+                    // feeder is never starved; a failure is reported to the
+                    // main thread in the order of frame numbers.
+                    parbuf.enqueue_refill(bufid);
+                    parsink.push(
+                        frame_number,
+                        encode_result.map(|mut frame| {
                             frame.precompute_bitstream();
-                            parsink.push(frame_number, frame);
-                        },
+                            frame
+                        }),
                     );
                 }
             })
@@ -413,11 +422,33 @@ pub fn encode_with_fixed_block_size<T: Source>(
         .collect();
 
     let src_len_hint = src.len_hint();
-    let context = ParContext::new(Context::new(src.bits_per_sample(), src.channels()));
-    let (feed_stats, context) =
-        feed_fixed_block_size(src, block_size, worker_count, &parbuf, context)?;
+    let mut context = ParContext::new(Context::new(src.bits_per_sample(), src.channels()));
+    let feed_result = feed_fixed_block_size(src, block_size, worker_count, &parbuf, &mut context)
+        .map(|(stats, _)| stats);
+
+    // All threads are stopped and joined before any error is returned.
     let remaining_md5_blocks = context.request_stop();
     let context = context.finalize();
+    for h in join_handles {
+        h.join().expect(panic_msg::THREAD_JOIN_FAILED);
+    }
+
+    // An encode error always belongs to a block that was read before a read
+    // error (if any) happened, so it takes precedence as in single-thread mode.
+    let mut encode_error = None;
+    let mut frames = Vec::new();
+    destruct_arc(parsink).finalize(|r: Result<Frame, VerifyError>| match r {
+        Ok(f) => frames.push(f),
+        Err(e) => {
+            if encode_error.is_none() {
+                encode_error = Some(e);
+            }
+        }
+    });
+    if let Some(e) = encode_error {
+        return Err(e.into());
+    }
+    let feed_stats = feed_result?;
 
     info!(
         target: "flacenc::par_run_stat::jsonl",
@@ -432,11 +463,9 @@ pub fn encode_with_fixed_block_size<T: Source>(
         .stream_info_mut()
         .set_md5_digest(&context.md5_digest());
 
-    for h in join_handles {
-        h.join().expect(panic_msg::THREAD_JOIN_FAILED);
+    for f in frames {
+        stream.add_frame(f);
     }
-
-    destruct_arc(parsink).finalize(|f: Frame| stream.add_frame(f));
 
     stream
         .stream_info_mut()
